@@ -1160,13 +1160,35 @@ where
                 _ => None,
             };
 
+            // Native `p3_fri::verifier::open_input` opens each batch at
+            // `index >> (log_global_max_height - log2(tallest matrix of the batch))`: a batch
+            // whose tallest matrix is shorter than the global maximum has a shorter Merkle
+            // path, steered by the high bits only.
+            let batch_log_max_height = mats
+                .iter()
+                .map(|(domain, _)| domain.log_size() + log_blowup)
+                .max()
+                .unwrap_or(log_global_max_height);
+            let bits_reduced = log_global_max_height
+                .checked_sub(batch_log_max_height)
+                .ok_or_else(|| {
+                    VerificationError::InvalidProofShape(format!(
+                        "batch {batch_idx} is taller than the global maximum height"
+                    ))
+                })?;
+            let batch_index_bits = index_bits.get(bits_reduced..).ok_or_else(|| {
+                VerificationError::InvalidProofShape(
+                    "index_bits shorter than log_global_max_height".to_string(),
+                )
+            })?;
+
             let op_ids = if perm_config.is_arity4_shape() {
                 verify_batch_circuit_arity4::<F, EF>(
                     builder,
                     perm_config,
                     &commitment_cap,
                     &dimensions,
-                    index_bits,
+                    batch_index_bits,
                     batch_openings,
                 )
             } else {
@@ -1175,7 +1197,7 @@ where
                     perm_config,
                     &commitment_cap,
                     &dimensions,
-                    index_bits,
+                    batch_index_bits,
                     batch_openings,
                     salts_for_batch,
                 )
